@@ -467,7 +467,7 @@ def check_sem(ctx, drv):
         ok, out = mc(ctx, "MC_LimitsSem", "MC_LimitsSem_asis.cfg", timeout=600, expect_ok=False)
         ctx.extra["sem_model_asis_len_gauge"] = ("within capacity" if ok else
                                                  "Len() can exceed the capacity for an instant in the model of Signal as it is (Release before "
-                                                 "active--); never observed on the real code (see sem stress samples) - design observation, no verdict")
+                                                 "active--); on the real code the stress sampler sees it under load (obligation C17.sem.len)")
     out1, _ = run_driver(ctx, drv, "sem", "", ctx.pick(40, 200), 6, 50)
     out2, _ = run_driver(ctx, drv, "sem", "stress", ctx.pick(4, 12), ctx.pick(250, 1000), 51)
     traces = sem_prepare(read_traces(out1) + read_traces(out2))
